@@ -6,6 +6,7 @@ import (
 	"go/token"
 	"go/types"
 	"sort"
+	"strconv"
 	"strings"
 )
 
@@ -619,6 +620,28 @@ func (c *FuncCtx) specBuiltin(st *State, name string, x *ast.CallExpr) ([]*Val, 
 	case "isnil":
 		v := c.eval(st, x.Args[0])
 		return b(c.isNilTerm(v)), true
+	case "arg":
+		// arg(k): the k-th argument of the call an "at call" clause is attached
+		// to - independent of how the code names its temporaries
+		lit, ok := x.Args[0].(*ast.BasicLit)
+		if c.atCallExpr == nil || !ok || len(x.Args) != 1 {
+			limitf("arg(k) is only meaningful in an \"at call\" clause, with a literal k")
+		}
+		k, err := strconv.Atoi(lit.Value)
+		if err != nil || k < 0 || k >= len(c.atCallExpr.Args) {
+			limitf("arg(%s): the call has %d arguments", lit.Value, len(c.atCallExpr.Args))
+		}
+		saved := st.bound
+		nb := map[string]*Val{}
+		for n, v := range saved {
+			if strings.HasPrefix(n, "$") {
+				nb[n] = v
+			}
+		}
+		st.bound = nb
+		v := c.eval(st, c.atCallExpr.Args[k])
+		st.bound = saved
+		return []*Val{v}, true
 	case "transient":
 		return b(c.transientTerm(c.eval(st, x.Args[0]))), true
 	case "allocated":
